@@ -289,27 +289,35 @@ def h_scheme_enum(ctx):
 
 # ---- autodiscover ----------------------------------------------------------------------------------------------
 
-def h_discover(ctx, ndev, maxinst):
+def h_discover(ctx, ndev, maxinst, full=None):
+    """full = (count, symbolic instance numbers): one healthy device reporting exactly `count` instances of
+    which the listed ones have symbolic enabled flag / type and the others are disabled (no fault): the
+    fully populated unit with 32 instances, the last of them number 31."""
     devs = []
     expect = {}
     for d in range(ndev):
-        present = ctx.fresh_bool("present%d" % d)
+        present = ctx.fresh_bool("present%d" % d) if full is None else True
         if not present:
             continue
         status = ctx.fresh("status%d" % d, 0, 255)
-        cnt = ctx.fresh("count%d" % d, 0, maxinst)
+        if full is not None:
+            ctx.assume(E.eq(status & 0x44, 0))
+        cnt = ctx.fresh("count%d" % d, 0, maxinst) if full is None else full[0]
         u = M.Unit("device", short=d)
         u.status = status
         u.n_instances = cnt
         u.instances = {}
-        for i in range(maxinst):
+        for i in range(maxinst if full is None else full[0]):
+            if full is not None and i not in full[1]:
+                u.instances[i] = M.Instance(itype=0, enabled=False)
+                continue
             en = ctx.fresh_bool("en%d_%d" % (d, i))
             ty = ctx.fresh("type%d_%d" % (d, i), 0, 255)
             u.instances[i] = M.Instance(itype=ty, enabled=en)
         devs.append((d, u, status, cnt))
     # number of queries is data dependent; one fault at a symbolic query index
-    nfault = ctx.fresh("fault_at", 0, 4 + ndev * (2 + 2 * maxinst))
-    fkind = ctx.fresh_choice("fault_kind", 3)          # 0 none, 1 silence, 2 framing error
+    nfault = ctx.fresh("fault_at", 0, 4 + ndev * (2 + 2 * maxinst)) if full is None else 0
+    fkind = ctx.fresh_choice("fault_kind", 3) if full is None else 0   # 0 none, 1 silence, 2 framing error
     faulted = []
     qn = [0]
 
@@ -405,6 +413,8 @@ def cases(tier):
                    install=_install, repeat=2))
     cs.append(Case("scheme-twice", h_scheme, {}, install=_install, repeat=2))
     cs.append(Case("scheme-enum", h_scheme_enum, {}, install=_install))
+    cs.append(Case("discover-full-32", h_discover, {"ndev": 1, "maxinst": 32, "full": (32, (0, 30, 31))}))
+    cs.append(Case("discover-full-31", h_discover, {"ndev": 1, "maxinst": 32, "full": (31, (0, 29, 30))}))
     if tier == "quick":
         cs.append(Case("discover-2x2", h_discover, {"ndev": 2, "maxinst": 2}))
     else:
